@@ -23,8 +23,8 @@ TAG_SC = "C18/scenario"
 TAG_SWARM = "C18/swarm"
 
 TIERS = {
-    "quick": dict(enum_scenarios=12, stdio_sites=6, swarm=400, real_lli=12, crash=120),
-    "thorough": dict(enum_scenarios=120, stdio_sites=40, swarm=80000, real_lli=300, crash=8000, real_clang=150),
+    "quick": dict(enum_scenarios=16, stdio_sites=6, swarm=400, real_lli=12, crash=120),
+    "thorough": dict(enum_scenarios=120, stdio_sites=40, swarm=80000, real_lli=300, crash=8000, real_clang=150, render=1800),
 }
 
 ESC = b"\x1b"
@@ -81,8 +81,18 @@ def make_inputs(rng, kind):
         return {"main.pn": b"fn main() -> i32\n{\n\treturn: 1\n}\n// \xff\xfe\n"}, ["main.pn"], True, False, ["main.pn"]
     if kind == "empty_file":
         return {"main.pn": b""}, ["main.pn"], False, True, ["main.pn"]
+    if kind == "zoo_invalid":
+        import detsim
+        zoo = detsim.zoo_sets(1)
+        z = zoo[rng.randrange(len(zoo))]
+        return {"main.pn": z["files"]["zoo.pn"]}, ["main.pn"], None, True, ["main.pn"]
+    if kind == "valid_with_lints":
+        prog = pngen.generate(rng, n_funcs=rng.randint(2, 5))
+        text = prog.single_file() + ("\nfn zz_linty() -> i32\n{\n\tvar x = 33;\n\tvar t: u8 = 300;\n\tif x == 50\n\t{\n\t\tloop;\n\t}\n"
+                                     "\treturn: x\n}\n")
+        return {"main.pn": text.encode()}, ["main.pn"], True, True, ["main.pn"]
     if kind == "valid_large":
-        prog = pngen.generate(rng, n_funcs=rng.randint(30, 60))
+        prog = pngen.generate(rng, n_funcs=rng.randint(60, 160))
         return {"main.pn": prog.single_file().encode()}, ["main.pn"], True, True, ["main.pn"]
     if kind == "package_only":
         pkg = rng.choice(["core:text", "core:text/char.pn", "vendor:libc"])
@@ -94,7 +104,8 @@ def make_inputs(rng, kind):
 
 
 INPUT_KINDS = ["valid_single", "valid_multi", "invalid_single", "invalid_multi", "syntax_error", "missing_file",
-               "directory_as_file", "non_utf8", "empty_file", "with_core", "valid_large", "package_only"]
+               "directory_as_file", "non_utf8", "empty_file", "with_core", "valid_large", "package_only", "zoo_invalid",
+               "valid_with_lints"]
 
 
 def make_scenario(rng, sub=None, input_kind=None, force=None):
@@ -104,6 +115,8 @@ def make_scenario(rng, sub=None, input_kind=None, force=None):
     sub = sub or rng.choice(["build", "build_default", "run", "emit"])
     input_kind = input_kind or rng.choice(INPUT_KINDS[:2] * 3 + INPUT_KINDS)
     files, inputs, compile_ok, inputs_ok, modules = make_inputs(rng, input_kind)
+    if compile_ok is None:
+        compile_ok = None      # decided by the census (see run_census)
     sc = {"sub": sub, "input_kind": input_kind, "files": files, "inputs": inputs, "compile_ok": compile_ok,
           "inputs_ok": inputs_ok, "modules": modules, "env": {}, "opts": [], "stubs": [], "config_ok": True,
           "backend_args": [], "link_args": [], "wasm": False, "pre_dirs": [], "pre_files": {}}
@@ -160,10 +173,16 @@ def make_scenario(rng, sub=None, input_kind=None, force=None):
             sc["stubs"].append("envbe")
             sc["env"][envvar] = "envbe"
             chosen = "envbe"
+            if not use_flag and force.get("empty_env", rng.random() < 0.08):
+                # set but empty: the backend is the empty string, which cannot be spawned
+                sc["env"][envvar] = ""
+                chosen = None
         if use_flag:
             sc["stubs"].append("flagbe")
             sc["opts"] += ["--backend", "flagbe"]
             chosen = "flagbe"
+            if envvar in sc["env"] and sc["env"][envvar] == "":
+                sc["env"][envvar] = "envbe"
         sc["backend_id"] = chosen
         # the "other" variable must not matter
         if rng.random() < 0.2:
@@ -355,6 +374,8 @@ def parse_trace(trace):
         failed = result.startswith("-") and result != "-EINTR"
         if cls == "open":
             failed = failed or (result != "ok" and result != "-EINTR")
+        if cls == "spawn":
+            failed = result != "0"
         if cls == "mkdir":
             # natural ENOENT / EEXIST are the two results create_dir_all expects
             failed = failed or result not in ("ok", "File exists", "No such file or directory")
@@ -435,6 +456,14 @@ def run_census(sc, wd):
     """Fault-free run of a scenario. When the out-dir is pre-populated, the
     artefacts a successful run must leave are taken from a twin run into a
     fresh out-dir."""
+    if sc.get("compile_ok") is None:
+        # inputs whose verdict is not known by construction (the diagnostic zoo):
+        # the verdict of a plain `emit --silent` of the same files is the reference
+        probe = dict(sc)
+        probe.update({"sub": "emit", "opts": ["--silent"], "out_dir": None, "stubs": [], "env": {}, "pre_files": {}, "pre_dirs": [],
+                      "compile_ok": True})
+        r = exec_scenario(probe, wd + "-verdict")
+        sc["compile_ok"] = r["rc"] == 0 and not r["sig"]
     census = exec_scenario(sc, wd)
     census["artefacts_ref"] = census["artefacts"]
     if sc.get("pre_files"):
@@ -579,6 +608,10 @@ FIXED = [
     ("build", "missing_file", {"out_dir": "fresh"}),
     ("emit", "valid_single", {"out_dir": "existing", "wasm": True}),
     ("build", "valid_multi", {"out_dir": "absent", "config": "malformed"}),
+    ("emit", "valid_large", {"out_dir": "fresh", "verbose": True, "silent": False}),
+    ("emit", "valid_with_lints", {"out_dir": "fresh", "color": "never", "arrows": "ascii", "silent": False, "verbose": False}),
+    ("run", "zoo_invalid", {"out_dir": "absent", "color": "never", "arrows": "ascii", "silent": False, "verbose": False}),
+    ("build", "valid_single", {"out_dir": "absent", "cell": (0, 1, 0), "empty_env": True, "config": "none"}),
 ]
 
 
@@ -809,6 +842,22 @@ def _crash_restart_job(args):
     res["trace_hashes"] = sorted(res["trace_hashes"])
     res["branches"] = sorted(res["branches"])
     return res
+
+
+def _render_grid_job(args):
+    """Failing compilations from the diagnostic zoo under --color=never /
+    --arrows=ascii, for every subcommand: no ESC byte, no box-drawing character,
+    non-zero exit, no backend."""
+    seed, idx = args
+    rng = rng_for(seed, "C18/render", idx)
+    sub = ["emit", "run", "build"][idx % 3]
+    sc = make_scenario(rng, sub, "zoo_invalid", {"color": "never", "arrows": "ascii", "silent": False, "verbose": False, "cell": (0, 0, 0),
+                                                 "config": "none", "out_dir": "absent", "script": {"read": "all", "exit": 0}, "order": "parent_first"})
+    sc["name"] = "render%d:%s" % (idx, sub)
+    wd = os.path.join(work_root(), "C18", "n%d" % idx)
+    obs = run_census(sc, wd)
+    v, calls, _ = judge(sc, obs, obs, "render_grid", None)
+    return {"violations": [{"class": c, "detail": d, "scenario": sc_json(sc), "plan": [], "fault": "none"} for c, d in v]}
 
 
 def _script_grid_job(args):
@@ -1090,6 +1139,11 @@ def run(tier, seed):
         script_cells += 1
         branches.add(res["branch"])
         raw.extend(res["violations"])
+    render_cells = 0
+    for res in parallel_map(_render_grid_job, [(seed, i) for i in range(cfg.get("render", 90))]):
+        runs += 1
+        render_cells += 1
+        raw.extend(res["violations"])
     fs_cells = {}
     for res in parallel_map(_fs_variant_job, [(seed, i) for i in range(len(FS_VARIANTS) * 3)]):
         runs += 1
@@ -1142,6 +1196,7 @@ def run(tier, seed):
         "backend_script_grid_cells": {"covered": script_cells, "of": len(script_grid()),
                                       "dimensions": "subcommand {run, build} x --silent x %d backend scripts x forced order" % len(SCRIPTS)},
         "real_filesystem_variants": fs_cells,
+        "failing_compilations_rendered_colourless_ascii": render_cells,
         "swarm_runs": swarm_done,
         "crash_restart_runs": crash_done,
         "real_lli_cross_checks": lli_runs,
